@@ -9,6 +9,7 @@ from pycoin.encoding.sec import public_pair_to_sec
 import c17_armour as ARM
 
 PROP = "C17"
+EXTRA_PROPS = ["C17compose"]   # composition theorems (see DESIGN.md section 0)
 DRIVER = "C17"
 INTERACTIVE = True
 RULE = ("correspondence: one driver line per call of a2b_base64 / b2a_base64+strip / _decode_signature / hash_for_signing / "
